@@ -345,6 +345,55 @@ func c33Lost(puts []c33Put, sent []string) int {
 	return lost
 }
 
+// c33B renders a byte string as a Coq term. A string that starts with a run of at
+// least 32 equal bytes (the long-prefix cases) is rendered as (C33.rep n c ++ rest),
+// which denotes exactly the same byte list: n and c are read off the string itself.
+func c33B(s string) string {
+	n := 0
+	for n < len(s) && s[n] == s[0] {
+		n++
+	}
+	if n < 32 {
+		return B(s)
+	}
+	rest := "[]"
+	if n < len(s) {
+		rest = B(s[n:])
+	}
+	return fmt.Sprintf("(C33.rep %d%%nat %d%%N ++ %s)", n, s[0], rest)
+}
+
+// c33LongPrefix: a legal object-name prefix of exactly n bytes (n >= 1).
+func c33LongPrefix(n int) string {
+	if n <= 0 {
+		return ""
+	}
+	return strings.Repeat("a", n-1) + "/"
+}
+
+// c33PrefixLens: length classes up to and beyond the backends' 1024-byte name limit.
+// 978/982/983/988 are where prefix+uuid(+.arrow.zst/.arrow) first reaches 1024.
+var c33PrefixLens = []int{1, 100, 900, 977, 978, 979, 982, 983, 987, 988, 989, 1000, 1013, 1014, 1017, 1018, 1023, 1024, 1025, 1100}
+
+func c33PlenTag(backend, prefix, enc string) []string {
+	n := len(c33EffPrefix(backend, prefix))
+	var tags []string
+	switch {
+	case n < 32:
+	case n < 900:
+		tags = append(tags, "plen=32..899")
+	case n < 978:
+		tags = append(tags, "plen=900..977")
+	case n < 1018:
+		tags = append(tags, "plen=978..1017")
+	case n <= 1024:
+		tags = append(tags, "plen=1018..1024")
+	default:
+		tags = append(tags, "plen>1024")
+	}
+	return tags
+}
+
 func c33Stream(in c33In) ([][]byte, bool) {
 	var out [][]byte
 	for _, h := range in.Stream {
@@ -376,9 +425,9 @@ type c33Thread struct {
 
 func c33RunSched(in c33In) CaseOut {
 	e := c33Setup()
-	tags := []string{"sched", in.Backend}
+	tags := append([]string{"sched", in.Backend}, c33PlenTag(in.Backend, in.Prefix, "")...)
 	stream, ok := c33Stream(in)
-	coqIn := App("C33.Sched", c33Backend(in.Backend), B(in.Prefix),
+	coqIn := App("C33.Sched", c33Backend(in.Backend), c33B(in.Prefix),
 		ListOf(in.Progs, func(p []string) string { return ListOf(p, B) }),
 		ListOf(in.Stream, func(h string) string { return `(hx "` + h + `")` }),
 		ListOf(in.Sched, Nat))
@@ -514,7 +563,7 @@ func c33RunSched(in c33In) CaseOut {
 		tags = append(tags, "key-collision")
 	}
 	tags = append(tags, fmt.Sprintf("puts=%d", min(len(order), 8)))
-	coqObs := App("C33.OSched", ListOf(order, func(o op) string { return Pair(Nat(o.Tid), B(o.Key)) }), Nat(lost))
+	coqObs := App("C33.OSched", ListOf(order, func(o op) string { return Pair(Nat(o.Tid), c33B(o.Key)) }), Nat(lost))
 	fresh := c33Fresh(stream)
 	if !fresh {
 		tags = append(tags, "stream-not-fresh")
@@ -542,10 +591,10 @@ func c33Fresh(stream [][]byte) bool {
 
 func c33RunConc(in c33In) CaseOut {
 	e := c33Setup()
-	tags := []string{"conc", in.Backend}
+	tags := append([]string{"conc", in.Backend}, c33PlenTag(in.Backend, in.Prefix, in.Enc)...)
 	stream, ok := c33Stream(in)
 	n := in.G * in.M
-	coqIn := App("C33.Conc", c33Backend(in.Backend), B(in.Prefix), B(in.Enc), Nat(n),
+	coqIn := App("C33.Conc", c33Backend(in.Backend), c33B(in.Prefix), B(in.Enc), Nat(n),
 		ListOf(in.Stream, func(h string) string { return `(hx "` + h + `")` }))
 	if !ok || in.G <= 0 || in.M <= 0 || len(stream) < n {
 		return CaseOut{Coq: Pair(coqIn, "(C33.OConc [] 0%nat)"), Tags: append(tags, "bad-input"), Obs: "bad input"}
@@ -599,7 +648,7 @@ func c33RunConc(in c33In) CaseOut {
 		tags = append(tags, "stream-not-fresh")
 	}
 	tags = append(tags, fmt.Sprintf("g=%d", in.G))
-	return CaseOut{Coq: Pair(coqIn, App("C33.OConc", ListOf(keys, B), Nat(lost))), Tags: tags, Nontrivial: fresh && n >= 2,
+	return CaseOut{Coq: Pair(coqIn, App("C33.OConc", ListOf(keys, c33B), Nat(lost))), Tags: tags, Nontrivial: fresh && n >= 2,
 		Obs: map[string]any{"keys": keys, "lost": lost}}
 }
 
@@ -638,7 +687,7 @@ func c33Hammer(st c33Uploader, backend, bname, enc string, proc, g, m int) []str
 
 func c33RunReal(in c33In) CaseOut {
 	e := c33Setup()
-	tags := []string{"real", in.Backend, in.Mode}
+	tags := append([]string{"real", in.Backend, in.Mode}, c33PlenTag(in.Backend, in.Prefix, in.Enc)...)
 	var keys []string
 	var uploads, lost int
 	switch in.Mode {
@@ -730,8 +779,8 @@ func c33RunReal(in c33In) CaseOut {
 	if len(distinct) != len(keys) {
 		tags = append(tags, "key-collision")
 	}
-	coqIn := App("C33.Real", c33Backend(in.Backend), B(in.Prefix), B(in.Enc), N(uint64(uploads)))
-	coqObs := App("C33.OReal", N(uint64(len(keys))), N(uint64(len(distinct))), Bool(shape), N(uint64(lost)), ListOf(sample, B))
+	coqIn := App("C33.Real", c33Backend(in.Backend), c33B(in.Prefix), B(in.Enc), N(uint64(uploads)))
+	coqObs := App("C33.OReal", N(uint64(len(keys))), N(uint64(len(distinct))), Bool(shape), N(uint64(lost)), ListOf(sample, c33B))
 	return CaseOut{Coq: Pair(coqIn, coqObs), Tags: tags, Nontrivial: uploads >= 2,
 		Obs: map[string]any{"uploads": len(keys), "distinct": len(distinct), "shape": shape, "lost": lost, "sample": sample}}
 }
@@ -826,6 +875,18 @@ func c33Gen(r *rand.Rand, n int, tier string) []c33In {
 		out = append(out, c33In{Kind: "sched", Backend: be, Prefix: "p/", Progs: [][]string{{"", ""}, {""}}, Stream: c33Hex([][]byte{e0, e1}), Sched: []int{0, 7, 1, 1, 0, 0, 1, 1, 0}})
 		out = append(out, c33In{Kind: "sched", Backend: be, Prefix: "p/", Progs: [][]string{{""}, {""}}, Stream: c33Hex([][]byte{e0, eF}), Sched: []int{0, 1, 1}})
 	}
+	// prefix length classes up to and beyond the 1024-byte object-name limit, both
+	// backends, both extensions: two threads, interleaved, extreme and ordinary draws
+	for i, pl := range c33PrefixLens {
+		for _, be := range []string{"s3", "gcs"} {
+			encs := [][]string{{""}, {"zstd"}}
+			if i%2 == 1 {
+				encs = [][]string{{"zstd"}, {"zstd"}}
+			}
+			out = append(out, c33In{Kind: "sched", Backend: be, Prefix: c33LongPrefix(pl), Progs: encs,
+				Stream: c33Hex([][]byte{e1, flip(e1, 15, 0x01)}), Sched: []int{0, 1, 1, 0}})
+		}
+	}
 	// real randomness
 	big := tier == "thorough"
 	pick := func(q, t int) int {
@@ -842,6 +903,13 @@ func c33Gen(r *rand.Rand, n int, tier string) []c33In {
 		c33In{Kind: "real", Backend: "gcs", Mode: "seq", Prefix: "", Enc: "zstd", G: 1, M: pick(60, 600)},
 		c33In{Kind: "real", Backend: "gcs", Mode: "go", Prefix: "r/", G: 16, M: pick(6, 80)},
 	)
+	out = append(out,
+		c33In{Kind: "real", Backend: "gcs", Mode: "seq", Prefix: c33LongPrefix(1018), G: 1, M: pick(8, 60)},
+		c33In{Kind: "real", Backend: "gcs", Mode: "go", Prefix: c33LongPrefix(1000), Enc: "zstd", G: 4, M: pick(3, 30)},
+		c33In{Kind: "real", Backend: "s3", Mode: "go", Prefix: c33LongPrefix(1024), G: 4, M: pick(3, 30)},
+		c33In{Kind: "conc", Backend: "gcs", Prefix: c33LongPrefix(1014), Enc: "zstd", G: 3, M: 1, Stream: c33Hex([][]byte{e0, e1, eF})},
+		c33In{Kind: "conc", Backend: "s3", Prefix: c33LongPrefix(990), Enc: "", G: 3, M: 1, Stream: c33Hex([][]byte{e0, e1, eF})},
+	)
 	if big {
 		out = append(out,
 			c33In{Kind: "real", Backend: "s3", Mode: "proc", Prefix: "r/", P: 4, G: 8, M: 60},
@@ -852,6 +920,12 @@ func c33Gen(r *rand.Rand, n int, tier string) []c33In {
 	for len(out) < n {
 		be := []string{"s3", "gcs"}[r.Intn(2)]
 		pf := c33Prefixes[r.Intn(len(c33Prefixes))]
+		switch r.Intn(12) {
+		case 0:
+			pf = c33LongPrefix(c33PrefixLens[r.Intn(len(c33PrefixLens))])
+		case 1:
+			pf = c33LongPrefix(960 + r.Intn(80))
+		}
 		if r.Intn(5) == 0 { // free-running goroutines over a scripted source
 			g, m := 2+r.Intn(5), 1+r.Intn(3)
 			var st [][]byte
